@@ -155,7 +155,7 @@ def templated(rng):
         if rng.random() < 0.5:
             S.append((1, 0, 4))
         S += [(4, 0, rng.choice([1, 2])), (5, 10, 0), (5, 5, 0), (4, 0, rng.choice([1, 3])), (5, 10, 0), (5, 5, 0),
-              (4, 0, 2), (5, 10, 0), (5, 5, 0), (6, 0, 0), (6, 1, 0), (6, 2, 0)]
+              (4, 0, 2)] + [(5, 10, 0), (5, 5, 0)] * 3 + [(6, 0, 0), (6, 1, 0), (6, 2, 0)]
     elif t == 7:
         # the waker of a pending operation is replaced before it completes
         S.append((rng.choice([1, 1, 3]), 0, 4))
@@ -168,8 +168,11 @@ def templated(rng):
         k = rng.randrange(1, 3)
         for _ in range(k):
             S.append((3, rng.choice([0, 1, 3]), 0))
-        S.append((5, 0, 0))
-        S.append((4, 0, 0))
+        # the job ends inside this poll (which returns on the worker's wake-up) ...
+        S.append((5, rng.choice([20, 40]), 0))
+        if rng.random() < 0.3:
+            S.append((5, 10, 0))
+        # ... and from then on the driver is always already notified when polled
         for _ in range(rng.randrange(3, 6)):
             S += [(16, 0, 0), (5, rng.choice([0, 5, 10]), 0)]
         S += [(6, i, 0) for i in range(k)]
@@ -189,8 +192,8 @@ def make(mode):
     class G:
         @staticmethod
         def generate(seed, n):
-            rng = random.Random(seed * 1000003 + hash(mode) % 1000)
-            return [templated(rng) if rng.random() < 0.25 else gen_program(rng, mode) for _ in range(n)]
+            rng = random.Random(seed * 1000003 + sum(map(ord, mode)) % 1000)
+            return [templated(rng) if rng.random() < 0.3 else gen_program(rng, mode) for _ in range(n)]
 
         @staticmethod
         def describe(case):
